@@ -110,11 +110,16 @@ def run_case(case, ctx):
         point = tuple(float(c) for c in P[arg])
     else:
         point = tuple(float(F(c)) for c in arg)
+    arg_point = point
+    if all(float(c).is_integer() for c in point) and len(U) % 2 == 0:
+        # the same point written with Python ints / as an integer numpy array
+        arg_point = tuple(int(c) for c in point) if len(U) % 4 == 0 else np.array([int(c) for c in point], dtype="int64")
+        ctx.count("integer_typed_points")
     ctx.cls(f"{kind}|{mode}|dim{rc.dim}|seg{min(len(ref.distinct(U)) - 1, 6)}|{nt}")
     ctx.mark_nontrivial(len(ref.distinct(U)) > 2 or p >= 2)
     ctx.count("projections")
     pre = lib.curve_digest(curve)
-    o = call(Projection.point_on_curve, point, curve)
+    o = call(Projection.point_on_curve, arg_point, curve)
     cv.unchanged(ctx, curve, pre, "proj:modified", "Projection.point_on_curve")
     if not o.ok:
         if isinstance(o.exc, lib.StepBudgetExceeded):
